@@ -517,3 +517,50 @@ func VerifCtorLevels() {
 	verifrt.Assert((e9 == nil) == (e10 == nil), "C16:zlib-dict-level-accept")
 	verifrt.Cover("ran")
 }
+
+// VerifGzSeq (C16, gzip/zlib): an arbitrary sequence of K operations on
+// fastgo's and the standard library's gzip and zlib Writers (level 0, so the
+// outputs are comparable byte for byte): same error-ness at every call, same bytes.
+func VerifGzSeq() {
+	K := verifrt.Param("K")
+	var fs, ss, fzs, szs vgSink
+	fw, _ := NewWriterLevel(&fs, 0)
+	sw, _ := stdgzip.NewWriterLevel(&ss, 0)
+	fz, _ := zlib.NewWriterLevel(&fzs, 0)
+	sz, _ := stdzlib.NewWriterLevel(&szs, 0)
+	payload := verifrt.Bytes(2)
+	for i := 0; i < K; i++ {
+		op := int(verifrt.U8())
+		verifrt.Assume(op < 5)
+		op = verifrt.Concretize(op)
+		var e1, e2, e3, e4 error
+		switch op {
+		case 0:
+			_, e1 = fw.Write(payload)
+			_, e2 = sw.Write(payload)
+			_, e3 = fz.Write(payload)
+			_, e4 = sz.Write(payload)
+		case 1:
+			_, e1 = fw.Write(nil)
+			_, e2 = sw.Write(nil)
+			_, e3 = fz.Write(nil)
+			_, e4 = sz.Write(nil)
+		case 2:
+			e1, e2, e3, e4 = fw.Flush(), sw.Flush(), fz.Flush(), sz.Flush()
+		case 3:
+			e1, e2, e3, e4 = fw.Close(), sw.Close(), fz.Close(), sz.Close()
+			verifrt.Cover("close")
+		case 4:
+			fw.Reset(&fs)
+			sw.Reset(&ss)
+			fz.Reset(&fzs)
+			sz.Reset(&szs)
+		}
+		verifrt.Assert((e1 == nil) == (e2 == nil), "C16:gzip-op-error-differs")
+		verifrt.Assert((e3 == nil) == (e4 == nil), "C16:zlib-op-error-differs")
+	}
+	verifrt.ObserveBytes("gz", fs.b)
+	verifrt.ObserveBytes("zl", fzs.b)
+	verifrt.Assert(vhEqual(fs.b, ss.b), "C16:gzip-output-differs")
+	verifrt.Assert(vhEqual(fzs.b, szs.b), "C16:zlib-output-differs")
+}
